@@ -214,12 +214,46 @@ class Injector(Monitor):
         self.syn = syn
         self.count = 0
 
+    fin_done = False
+
     def on_call(self, w, rec) -> None:
         if rec.ent != "a" or rec.hk != "src":
             return
         self.n += 1
         if self.n in self.plan:
             w.push(w.clock.t, ("fn", self._inject))
+        # once per run, possibly: the peer's Finished PDU arrives early and with ITS header settings (CRC flag, large-file
+        # flag: a peer need not mirror them); what the sender emits afterwards still carries the sender's own settings
+        if not self.fin_done and rec.post.step == "WAITING_FOR_FINISHED" and not rec.emitted:
+            self.fin_done = True
+            if w.tape.choose(3, "early finished pdu with the peer's header") == 2:
+                w.push(w.clock.t, ("fn", self._inject_fin))
+
+    def _inject_fin(self, w) -> None:
+        from spacepackets.cfdp import CrcFlag, LargeFileFlag
+
+        t = w.tape
+        h = w.a.handlers["src"]
+        tid = h.transaction_id
+        if tid is None:
+            return
+        try:
+            from spacepackets.cfdp import ConditionCode
+            from spacepackets.cfdp.pdu import FinishedPdu
+            from spacepackets.cfdp.pdu.finished import DeliveryCode, FileStatus, FinishedParams
+
+            conf, _, _ = self.syn.conf(t, "FIN", tid.seq_num.value, pert=False)
+            v = t.choose(3, "peer header variant")
+            if v in (0, 2):
+                conf.crc_flag = CrcFlag.NO_CRC if conf.crc_flag == CrcFlag.WITH_CRC else CrcFlag.WITH_CRC
+            if v in (1, 2):
+                conf.file_flag = LargeFileFlag.LARGE if conf.file_flag == LargeFileFlag.NORMAL else LargeFileFlag.NORMAL
+            pdu = FinishedPdu(conf, FinishedParams(ConditionCode.NO_ERROR, DeliveryCode.DATA_COMPLETE, FileStatus.FILE_RETAINED))
+            raw = bytes(pdu.pack())
+        except Exception:  # noqa: BLE001
+            return
+        w.probe("C08.early_finished_with_peer_header")
+        w.deliver(w.a, raw)
 
     def _inject(self, w) -> None:
         t = w.tape
